@@ -456,6 +456,9 @@ def simu_cases(draw):
     spec = draw(cr.behaviour_specs(modes=(mode,), surface=["vm", "vm", "hill"], hetero_ok=False, branches_ok=False))
     nops = draw(st.integers(4, 10))
     ops, nsave = [["solve", draw(st.integers(2, 4))], ["save"]], 1
+    if draw(st.integers(0, 2)) == 0:
+        # the initial configuration saved as iteration 0 before anything is solved or assembled (an empty committed state)
+        ops, nsave = [["save"]] + ops + [["set", 0], ["solve", 1]], 2
     for _ in range(nops - 2):
         kind = cr.pick(draw, ["solve", "save", "set", "solve", "save", "set", "solve"])
         if kind == "solve":
